@@ -54,7 +54,7 @@ def sysName : Sys → String
   | .stopped => "Stopped" | .restarting => "Restarting"
 
 /-- repair switches as a string of 0/1 in the order guard, clocks, prevFix, startWrite, pauseGate, errSafe,
-    pauseOnce, idleErr, cancel2 (missing = 0) -/
+    pauseOnce, idleErr, cancel2, scopeReset (missing = 0) -/
 def parseBits (s : String) : Option (Nat → Bool) :=
   if s.toList.all (fun c => c = '0' || c = '1') then some (fun i => s.toList.getD i '0' == '1') else none
 
@@ -123,7 +123,7 @@ def step (σ : Option Sess) (line : String) : Option Sess × String :=
     | some f, some safes, some outs =>
       let cfg : Cfg := { safes, guard := f 0, clocks := f 1, prevFix := f 2, startWrite := f 3, pauseGate := f 4,
                          errSafe := f 5, pauseOnce := f 6, idleErr := f 7,
-                         cancel2 := f 8 }
+                         cancel2 := f 8, scopeReset := f 9 }
       let st := init cfg outs
       (some ⟨cfg, mode, st⟩, "init " ++ observe mode st 0)
     | _, _, _ => (none, "bad-op")
